@@ -20,8 +20,9 @@ Inductive nd_class :=
 
 Definition nd_site : Type := (string * nd_kind * nd_class)%type.
 
-(* AlLemma: justified harmless; AlLimit: a real dependence on clock / scheduling / map order that is documented but
-   not shown to diverge by the engine (not driven); AlFinding: divergence confirmed by the engine *)
+(* AlLemma: justified harmless; AlLimit: a real dependence on clock / scheduling / map order that is documented: the
+   engine does not drive it, or drives it and reports the divergence under the signature named in the entry (fan-in
+   calls whose error text depends on the stored provider type); AlFinding: divergence confirmed by the engine *)
 Inductive nd_allow_kind := AlLemma | AlLimit | AlFinding.
 (* site key, kind, justification (name of the argument, or the finding id) *)
 Definition nd_allow : Type := (string * nd_allow_kind * string)%type.
